@@ -200,7 +200,11 @@ def ob_iterative(kind, strong, blocked=False):
         def fake(A_op, b_vec, **kw):
             cb = kw["callback"]
             it1, it2 = symmat("it1", (n,), cplx=False), symmat("it2", (n,), cplx=False)
-            if kind == "gmres":
+            if kind == "gmres" and kw.get("callback_type") == "x":
+                # scipy's contract: with callback_type='x' the callback runs once per restart cycle with the iterate (and maxiter counts cycles)
+                cb(it2)
+                seen.extend([it2])
+            elif kind == "gmres":
                 cb(0.5)
                 cb(0.25)
                 seen.extend([0.5, 0.25])
@@ -233,6 +237,27 @@ def ob_iterative(kind, strong, blocked=False):
             problems.append("right-hand side is not the %s" % ("coefficient vector" if strong else "projection onto dual_to_range"))
         if kw.get("rtol") != 1e-7 or kw.get("maxiter") != 33 or (kind == "gmres" and kw.get("restart") != 11):
             problems.append("tol/restart/maxiter not forwarded: %s" % {k: v for k, v in kw.items() if k != "callback"})
+        # the outputs requested must not change the call (same options; 2 inner iterations -> count 2 / 2 residuals whatever is returned)
+        for rr, rc in ((False, True), (True, False), (False, False)):
+            rec2 = Rec(fake)
+            kw2 = dict(kwargs, return_residuals=rr, return_iteration_count=rc)
+            with scipy_stubs({kind: rec2}):
+                np.linalg.norm = lambda v, *a, **k: ("NORM", v) if getattr(np.asarray(v), "dtype", None) == object else real_norm(v, *a, **k)
+                try:
+                    out2 = (gmres if kind == "gmres" else cg)(A, b, **kw2)
+                finally:
+                    np.linalg.norm = real_norm
+            lab2 = "return_residuals=%s, return_iteration_count=%s" % (rr, rc)
+            if len(rec2.calls) != 1 or len(out2) != 2 + rr + rc:
+                problems.append("%s: %d calls / %d outputs" % (lab2, len(rec2.calls), len(out2)))
+                continue
+            okw = {k: v for k, v in rec2.calls[0][1].items() if k != "callback"}
+            if okw != {k: v for k, v in kw.items() if k != "callback"}:
+                problems.append("%s: options of the scipy call differ from those with both outputs: %s" % (lab2, okw))
+            if rc and out2[-1] != 2:
+                problems.append("%s: iteration count %s for 2 iterations" % (lab2, out2[-1]))
+            if rr and len(out2[2]) != 2:
+                problems.append("%s: %d residuals for 2 iterations" % (lab2, len(out2[2])))
         sol, info, residuals, count = out
         sols = sol if blocked else [sol]
         pos = 0
@@ -411,6 +436,21 @@ def replay_numeric(which):
             details[key] = abs(res[-1] - true) / true if len(res) else 1.0
             if cnt != len(res) or cnt != 3 or not details[key] < 1e-8:
                 bad[key] = details[key]
+    if which in ("gmres", "cg", "all"):
+        # "outputs correspond to the iteration that was run": which outputs are requested changes neither the iteration (same iterate after an early stop,
+        # restart=3 / maxiter=4 and defaults) nor the reported count (equal to the number of residuals of the call that returns both)
+        for lab, solver, opn, rhsf, kw in (("gmres restart=3 maxiter=4", gmres, second, second * f1, dict(restart=3, maxiter=4, tol=1e-14)),
+                                          ("gmres tol=1e-9", gmres, second, second * f1, dict(tol=1e-9)),
+                                          ("cg maxiter=4", cg, V, V * f0, dict(maxiter=4, tol=1e-14))):
+            xb, _, resb, cntb = solver(opn, rhsf, return_residuals=True, return_iteration_count=True, **kw)
+            xc, _, cntc = solver(opn, rhsf, return_iteration_count=True, **kw)
+            xr, _, resr = solver(opn, rhsf, return_residuals=True, **kw)
+            xn, _ = solver(opn, rhsf, **kw)
+            key = "%s: outputs requested change the iteration / the count" % lab
+            dev = max(Z.relerr(xc.coefficients, xb.coefficients), Z.relerr(xr.coefficients, xb.coefficients), Z.relerr(xn.coefficients, xb.coefficients))
+            details[key] = dev
+            if dev > 1e-12 or cntc != cntb or cntb != len(resb) or len(resr) != len(resb):
+                bad[key + " (count with both outputs %d, count alone %d, residuals alone %d)" % (cntb, cntc, len(resr))] = max(dev, 1.0 if cntc != cntb else 0.0)
     if which in ("gmres-blocked", "cg-blocked", "all"):
         # blocked systems: the requested tolerance must reach the scipy routine (true relative residual of the weak / strong system)
         B = api.BlockedOperator(2, 2)
